@@ -184,6 +184,13 @@ def plan(spec, model):
             for r in RANKS:
                 if model.get(f'{r}_{n}_{c}'): steps.append((HELPER, f'MODE {c} +{RANK_LETTER[r]} {n}'))
         if model.get(f'hastopic_{c}'): steps.append((HELPER, f'TOPIC {c} :{spec.topic_text}'))
+        # the worlds hold every list of a channel as Some(set) - possibly empty, as after +x m / -x m; a list that was never touched is None
+        # in the real server.  The original code cannot tell the two apart, changed code may: build exactly the modelled state.
+        for letter, key in (('b', 'ban'), ('e', 'exc'), ('I', 'invex')):
+            if not any(model.get(f'{key}_{c}_{i}') for i in range(len(spec.masks))):
+                steps.append((HELPER, f'MODE {c} +{letter} tmp!*@*')); steps.append((HELPER, f'MODE {c} -{letter} tmp!*@*'))
+        for letter in 'ahv':
+            steps.append((HELPER, f'MODE {c} +{letter} {HELPER}')); steps.append((HELPER, f'MODE {c} -{letter} {HELPER}'))
         for i, m in enumerate(spec.masks):
             if model.get(f'ban_{c}_{i}'): steps.append((HELPER, f'MODE {c} +b {m}'))
             if model.get(f'exc_{c}_{i}'): steps.append((HELPER, f'MODE {c} +e {m}'))
